@@ -357,13 +357,6 @@ func TestVerif_C08_filters(t *testing.T) {
 	verifkit.RapidSetup(520, 9000)
 	rapid.Check(t, func(rt *rapid.T) {
 		c := c08GenCase().Draw(rt, "case")
-		if verifkit.Known("list-restore") {
-			var n int
-			c.Ops, n = c08ExcludeListRestore(c.Ops)
-			if n > 0 {
-				col.Excluded("list-restore")
-			}
-		}
 		st := c08Plan(c)
 		h := verifkit.Hash(c)
 		col.CaseH(h, c, st.NonTrivial && !c.GoInt, c08Labels(st.Labels)...)
